@@ -265,51 +265,71 @@ func Discharge(x *Exec, inst Instance, so SolveOpts) *InstResult {
 	}
 	asserts := x.Obligs
 	r.NOblig = len(asserts)
-	if len(asserts) > 0 {
+	// obligations are discharged in groups (one query per group: the
+	// disjunction of the group's violation conditions must be unsat); a group
+	// that is not unsat is split into its members
+	const groupSize = 48
+	var decide func(group []Oblig)
+	decide = func(group []Oblig) {
+		if len(group) == 0 || len(r.Violations) >= 3 {
+			return
+		}
 		all := u.False
-		for _, o := range asserts {
+		for _, o := range group {
 			all = u.Or(all, o.Cond)
 		}
 		res, _ := s.Query(with(all))
 		count(res)
-		if res != Unsat {
-			// locate the failing obligations: use the model when there is one
-			remaining := asserts
-			if res == Sat {
-				if m, err := getModel(x, s); err == nil {
-					var hit, rest []Oblig
-					for _, o := range asserts {
-						if m.Eval(o.Cond) == 1 {
-							hit = append(hit, o)
-						} else {
-							rest = append(rest, o)
-						}
-					}
-					remaining = append(hit, rest...)
-				}
-			}
-			for _, o := range remaining {
-				res, _ := s.Query(with(o.Cond))
-				count(res)
-				switch res {
-				case Sat:
-					if o.Kind == "unwind" {
-						r.BoundHits = append(r.BoundHits, o)
-					} else {
-						m, err := getModel(x, s)
-						if err != nil {
-							r.Unknowns = append(r.Unknowns, o)
-						} else {
-							r.Violations = append(r.Violations, Violation{o, m})
-						}
-					}
-				case Unknown:
+		if res == Unsat {
+			return
+		}
+		if len(group) == 1 {
+			o := group[0]
+			switch res {
+			case Sat:
+				if o.Kind == "unwind" {
+					r.BoundHits = append(r.BoundHits, o)
+				} else if m, err := getModel(x, s); err != nil {
 					r.Unknowns = append(r.Unknowns, o)
+				} else {
+					r.Violations = append(r.Violations, Violation{o, m})
 				}
-				if len(r.Violations) >= 3 {
-					break
-				}
+			default:
+				r.Unknowns = append(r.Unknowns, o)
 			}
+			return
+		}
+		if res == Sat {
+			// the model tells which members fail: decide those first
+			if m, err := getModel(x, s); err == nil {
+				var hit, rest []Oblig
+				for _, o := range group {
+					if m.Eval(o.Cond) == 1 {
+						hit = append(hit, o)
+					} else {
+						rest = append(rest, o)
+					}
+				}
+				for _, o := range hit {
+					decide([]Oblig{o})
+				}
+				decide(rest)
+				return
+			}
+		}
+		mid := len(group) / 2
+		decide(group[:mid])
+		decide(group[mid:])
+	}
+	if len(asserts) <= 2*groupSize {
+		decide(asserts)
+	} else {
+		for i := 0; i < len(asserts); i += groupSize {
+			j := i + groupSize
+			if j > len(asserts) {
+				j = len(asserts)
+			}
+			decide(asserts[i:j])
 		}
 	}
 	r.Queries, r.SolverTime = s.Queries, s.Time
